@@ -5,7 +5,9 @@ Terminated() unless the log is empty; Terminated consults the termination
 condition, both limits (with >=) and the exit flag, after resolving the limits;
 the message names the branch that fired; limit bookkeeping pairs iterations with
 generations and evaluations with evaluations; wrappers' warnflag; who may write
-the exit flag.  NOT decided: that Solve returns for every cost, the size of the
+the exit flag.  Round 3: every re-decoration continues the evaluation counter (shared with
+C04.b), so the evaluation limit bounds the total.
+NOT decided: that Solve returns for every cost, the size of the
 evaluation overshoot.
 """
 import ast
